@@ -13,7 +13,8 @@ META = {
                    '(N upstream replicas, every entry an arbitrary Option<i64>): a returned watermark is the '
                    'minimum over all replicas, all replicas have one, it is strictly greater than the previously '
                    'returned front, and the invariant is re-established. ',
-    'assumptions': ['IndexMap behaves as an insertion-ordered map (model table)'],
+    'assumptions': ['IndexMap behaves as an insertion-ordered map (model table)',
+                    'every upstream script respects the watermark contract'],
     'trusted': ['mirsym MIR executor and its std model table', 'z3 / cvc5'],
 }
 
@@ -121,4 +122,18 @@ def frontier_tasks(tier, progress=False):
 
 
 def TASKS(tier):
-    return frontier_tasks(tier)
+    from props.start import start_tasks
+    from props.ops import fold_tasks, keyed_fold_tasks, window_op_tasks
+    return (frontier_tasks(tier) +
+            [t for t in start_tasks(tier, 'start', progress=False) if t.params.get('timed')] + fold_tasks(tier, 'fold') +
+            keyed_fold_tasks(tier, 'keyed_fold') + window_op_tasks(tier, 'window_operator'))
+
+
+from props.start import start_harness, classify_start      # noqa: E402
+from props.ops import fold_harness, keyed_fold_harness, window_op_harness    # noqa: E402
+
+
+def classify(t, v):
+    if t.factory == 'start_harness':
+        return classify_start(t, v)
+    return t.role
